@@ -361,7 +361,10 @@ class TokenizerState:
         return self.in_mode(ModeInColon)
 
     def in_multi_line_string(self) -> bool:
-        return bool(self.end_progs) and (len(self.end_progs[-1].quote) == 3)
+        for prog in reversed(self.end_progs):
+            if prog.quote:  # format-spec and brace modes carry no quote: look at the enclosing string
+                return len(prog.quote) == 3
+        return False
 
     def pop_mode(self, end: tuple[int, int] | None = None) -> EndProg:
         prog = self.end_progs.pop()
